@@ -218,24 +218,26 @@ def updateHeavyREq1 (s : Sk α) (item : Int) (w : α) (mark : Bool) (ds : Draws 
   | e :: _ => some (growCandidateSet s1 (Num.add e.wt s.totalWtR) 2 ds)
   | [] => some (s1, ds)   -- unreachable: H is non-empty after the push
 
+/-- the body of `update` after the weight checks and `++n_`: dispatch on the mode and on the item's weight -/
+def updateDispatch (s : Sk α) (item : Int) (w : α) (mark : Bool) (ds : Draws α) : Option (Sk α × Draws α) :=
+  if s.R.length == 0 then updateWarmup s item w mark ds
+  else
+    let tau := Num.div s.totalWtR (Num.ofNat s.R.length)
+    -- "sketch not in valid estimation mode"
+    if s.H.length != 0 && Num.lt (wtAt s.H 0) tau then none else
+    -- what tau would be if the deletion candidates turn out to be R plus the new item
+    let hypotheticalTau := Num.div (Num.add w s.totalWtR) (Num.ofNat s.R.length)
+    let condition1 := s.H.length == 0 || Num.le w (wtAt s.H 0)
+    let condition2 := Num.lt w hypotheticalTau
+    if condition1 && condition2 then updateLight s item w mark ds
+    else if s.R.length == 1 then updateHeavyREq1 s item w mark ds
+    else updateHeavyGeneral s item w mark ds
+
 /-- `update(item, weight, mark)`.  `none` = C++ exception (invalid weight, or a `logic_error`). -/
 def update (s : Sk α) (item : Int) (w : α) (mark : Bool) (ds : Draws α) : Option (Sk α × Draws α) :=
   if !validWeight w then none
   else if Num.eq w (Num.zero : α) then some (s, ds)
-  else
-    let s := { s with n := s.n + 1 }
-    if s.R.length == 0 then updateWarmup s item w mark ds
-    else
-      let tau := Num.div s.totalWtR (Num.ofNat s.R.length)
-      -- "sketch not in valid estimation mode"
-      if s.H.length != 0 && Num.lt (wtAt s.H 0) tau then none else
-      -- what tau would be if the deletion candidates turn out to be R plus the new item
-      let hypotheticalTau := Num.div (Num.add w s.totalWtR) (Num.ofNat s.R.length)
-      let condition1 := s.H.length == 0 || Num.le w (wtAt s.H 0)
-      let condition2 := Num.lt w hypotheticalTau
-      if condition1 && condition2 then updateLight s item w mark ds
-      else if s.R.length == 1 then updateHeavyREq1 s item w mark ds
-      else updateHeavyGeneral s item w mark ds
+  else updateDispatch { s with n := s.n + 1 } item w mark ds
 
 -- ---------------------------------------------------------------- decrease_k_by_1 (used by the union)
 
